@@ -1205,13 +1205,30 @@ struct RecentAcc {
   int tid;
   bool write;
 };
-static RecentAcc g_recent[1024];
+// Exact-match open-addressing table: whether two operations hit the same location must not depend on the
+// numeric value of the address (a direct-mapped table made decisions depend on which unrelated addresses
+// collide, and a few addresses - thread stacks - differ from run to run: found by `vcheck determinism`).
+static const size_t kRecentSize = 1 << 15;
+static RecentAcc g_recent[kRecentSize];
+static RecentAcc g_recent_overflow;
+static RecentAcc& recent_slot(uintptr_t a) {
+  size_t h = (size_t)((a >> 2) * 0x9E3779B97F4A7C15ull >> 40) & (kRecentSize - 1);
+  for (size_t k = 0; k < 256; ++k) {
+    RecentAcc& e = g_recent[(h + k) & (kRecentSize - 1)];
+    if (e.addr == a || e.addr == 0)
+      return e;
+  }
+  g_recent_overflow.addr = 0; // table crowded around here: treat as never seen
+  return g_recent_overflow;
+}
 static void conflict_point(SimThread* t, int kind, const void* addr) {
   uintptr_t a = (uintptr_t)addr;
-  RecentAcc& e = g_recent[(a >> 2) & 1023];
+  RecentAcc& e = recent_slot(a);
   bool isWrite = kind != SP_LOAD;
+  // (an entry left by a thread that has exited is ignored: it cannot be in the middle of anything, and its
+  // stack may have been handed to a new thread at the same or at a different address)
   if (!g.replay && g.conflict_q && g.faults_enabled && !g.in_tail && e.addr == a && e.tid != t->id &&
-      g.step - e.step <= 300 && (isWrite || e.write) && t->stall_until <= g.step) {
+      g.th[e.tid].st != T_EXITED && g.step - e.step <= 300 && (isWrite || e.write) && t->stall_until <= g.step) {
     if (g.r_conf.below(1024) < g.conflict_q) {
       int cand[kMaxThreads];
       if (collect_candidates(cand, t->id) > 0) {
@@ -2285,6 +2302,8 @@ extern "C" void sim_begin(const SimOpts* o) {
   {
     static const uint32_t qs[] = {0, 100, 350, 800, 350};
     g.conflict_q = (o->fault_mask & SF_BIT(SF_STALL)) ? qs[g.r_conf.below(5)] : 0;
+    if (getenv("SIMRT_NO_CONFLICT"))
+      g.conflict_q = 0;
   }
   g.fault_rate_scale = 1000;
   if (o->replay_path) {
